@@ -140,12 +140,12 @@ SPEC = {
         # scripted form of the designated same-block classes (votes + finishVoting, deposits + refund), V12 and V9
         Job("sameblock", "verifsim", "^TestVerifC15SameBlock$", shards=(1, 1), timeout=(600, 600)),
         # checkptr at the cgo boundary + race detector on a slice (WASM and embedded)
-        Job("race", "verifsim", "^TestVerifC15$", race=True, shards=(2, 4), timeout=(900, 3600), env={"C15_STEPS": "30"}),
+        Job("race", "verifsim", "^TestVerifC15$", race=True, shards=(2, 4), timeout=(900, 7200), env={"C15_STEPS": "30"}),
         # thorough only: AddressSanitizer on the Go/cgo glue of the WASM binding (the Rust archive itself is not instrumented)
-        Job("wasm-asan", "verifsim", "^TestVerifC15$", asan=True, shards=(1, 2), timeout=(900, 3600), tiers=("thorough",),
+        Job("wasm-asan", "verifsim", "^TestVerifC15$", asan=True, shards=(1, 2), timeout=(900, 7200), tiers=("thorough",),
             env={"C15_SLICE": "wasm", "C15_STEPS": "40", "ASAN_OPTIONS": "detect_leaks=0"}),
         # thorough only: > 30 000 blocks so that STARTED votings become terminable (V12 and V9)
-        Job("long-termination", "verifsim", "^TestVerifC15LongTermination$", shards=(1, 2), timeout=(900, 3600), tiers=("thorough",)),
+        Job("long-termination", "verifsim", "^TestVerifC15LongTermination$", shards=(1, 2), timeout=(900, 7200), tiers=("thorough",)),
     ],
     "floors": _floors,
     "parallel": 16,
